@@ -2,7 +2,6 @@ package nasConvert
 
 import (
 	"fmt"
-	"strings"
 	"time"
 
 	"github.com/free5gc/nas/nasType"
@@ -29,17 +28,6 @@ func parseTimeZoneToNas(timezone string) int {
 			time += i * 4
 		}
 	}
-	if timezone[len(timezone)-2:] == "+1" || timezone[len(timezone)-2:] == "+2" {
-		idx := strings.LastIndex(timezone, "+")
-		if idx != -1 {
-			if timezone[0] == '-' {
-				time -= (int(timezone[idx+1]) - 0x30) * 4
-			} else {
-				time += (int(timezone[idx+1]) - 0x30) * 4
-			}
-		}
-	}
-
 	// Parse minute
 	switch timezone[4:6] {
 	case "15":
@@ -52,11 +40,25 @@ func parseTimeZoneToNas(timezone string) int {
 		time += 0
 	}
 
+	if timezone[0] == '-' {
+		time = -time
+	}
+
+	// Daylight saving time moves the local time zone to the east
+	if timezone[len(timezone)-2:] == "+1" || timezone[len(timezone)-2:] == "+2" {
+		time += (int(timezone[len(timezone)-1]) - 0x30) * 4
+	}
+
+	negative := time < 0
+	if negative {
+		time = -time
+	}
+
 	// Convert decimal to binary-coded decimal
 	time = toBinaryCodedDecimal(time)
 
 	// Add signed number
-	if timezone[0] == '-' {
+	if negative {
 		time |= 0x80
 	}
 
